@@ -249,7 +249,7 @@ def check_writer(case, acc, d):
             md = pq.ParquetFile(path).metadata
             groups = [md.row_group(g).num_rows for g in range(md.num_row_groups)]
     except Exception as e:
-        if case.get("permuted") is not None and isinstance(e, ValueError):
+        if case.get("permuted") is not None and isinstance(e, (ValueError, TypeError, AssertionError, KeyError)):
             acc.count("permuted_append_refused")
             return "refused"
         acc.violation(Violation(sig + f"raises:{type(e).__name__}", f"{case}: {type(e).__name__}: {str(e)[:200]}", case))
